@@ -30,7 +30,7 @@ PARS_ALT = {"T": 5 / 3600, "tau": 25 / 3600, "eta": 30.0, "kappa": 55.0, "delta"
 class World:
     """The live objects + the model."""
 
-    def __init__(self, M, st, rng):
+    def __init__(self, M, st, rng, ideal_first_origin=None, clash_names=None):
         from sym_metanet.engines.casadi import Engine as CE
 
         self.M, self.st, self.rng = M, st, rng
@@ -39,23 +39,26 @@ class World:
         self.N = [M.Node(name=f"N{i}") for i in range(6)]
         self.L1, self.L2, self.L3, self.L0 = mk(2, 3, "L1"), mk(1, 2, "L2"), mk(2, 2, "L3"), mk(1, 1, "L0")
         self.L1b = M.LinkWithVsl(2, 3, 1.0, 180.0, 34.0, 105.0, 1.9, name="L1b", segments_with_vsl={1}, alpha=0.1)
-        self.O1 = M.MeteredOnRamp(3000.0, name="O1")
-        self.O1b = M.MainstreamOrigin(name=("L0" if rng.random() < 0.3 else "O1b"))
+        ideal = (rng.random() < 0.3) if ideal_first_origin is None else ideal_first_origin
+        self.O1 = M.Origin(name="O1") if ideal else M.MeteredOnRamp(3000.0, name="O1")  # sometimes variable-less
+        pr = (lambda p_: rng.random() < p_) if clash_names is None else (lambda p_: (rng.random() < 2.0) and clash_names)
+        self.O1b = M.MainstreamOrigin(name=("L0" if pr(0.3) else "O1b"))
         # names may clash with other elements' names (uniqueness is by object, not by name)
-        clash = rng.random() < 0.5
+        clash = pr(0.5)
         self.O2 = M.SimplifiedMeteredOnRamp(2000.0, name=("L2" if clash else "O2"))
         # kinds vary between worlds (elements with only disturbances / only states / no variables)
         self.D1 = (M.CongestedDestination if rng.random() < 0.6 else M.Destination)(name="D1")
         self.D1b = (M.CongestedDestination if rng.random() < 0.7 else M.Destination)(name="D1b")
         # an off-ramp link named after the place it leads to: the (variable-less, hence always ready)
         # destination of the branch may carry the name of the branch link
-        self.D2 = M.Destination(name=("L3" if rng.random() < 0.4 else "D2"))
-        self.D2b = M.CongestedDestination(name=("O1" if rng.random() < 0.3 else "D2b"))
+        self.D2 = M.Destination(name=("L3" if pr(0.4) else "D2"))
+        self.D2b = M.CongestedDestination(name=("O1" if pr(0.3) else "D2b"))
         # a user-defined destination kind that owns a state (README "Extensions"); only the public
         # element-level step advances it
         from vf import userkinds as UK
 
         self.D1u = UK.BufferedDestination(name="D1u")
+        self.O1g = UK.GatedOrigin(name="O1g")  # state-less, owns an action
         self.net = M.Network().add_path((self.N[0], self.L1, self.N[1], self.L2, self.N[2], self.L0, self.N[5]),
                                         origin=self.O1, destination=self.D1)
         # model
@@ -165,6 +168,9 @@ class World:
 
     def op_replace_dest(self):
         self.net.add_destination(self.D1b, self.N[5])
+
+    def op_replace_origin_user(self):
+        self.net.add_origin(self.O1g, self.N[0])
 
     def op_replace_dest_user(self):
         self.net.add_destination(self.D1u, self.N[5])
@@ -296,7 +302,7 @@ def observe_compile(W_, rec, ctxhist):
 
 
 OPS = ("init", "init", "reinit_same", "stepel", "stepel", "netstep", "netstep", "netstep_alt", "compile", "compile", "compile",
-       "add_branch", "add_ramp", "replace_origin", "replace_link", "replace_dest", "replace_branch_dest", "replace_dest_user")
+       "add_branch", "add_ramp", "replace_origin", "replace_link", "replace_dest", "replace_branch_dest", "replace_dest_user", "replace_origin_user")
 
 
 def apply(W_, rec, op, arg=None):
@@ -361,13 +367,16 @@ def run(M, rec, tier, seed, k, n):
         [("add_branch", None), ("netstep", None), ("replace_branch_dest", None), ("compile", None)],
         [("netstep", None), ("replace_dest", None), ("compile", None)],
         [("replace_dest_user", None), ("netstep", None), ("compile", None)],
+        [("netstep", None), ("replace_origin_user", None), ("compile", None)],
+        [("replace_origin_user", None), ("netstep", None), ("compile", None)],
         [("replace_dest_user", None), ("netstep", None), ("stepel", 4), ("compile", None)],
         [("add_branch", None), ("netstep", None), ("replace_branch_dest", None), ("init", 7), ("stepel", 2), ("compile", None)],
     ]
     for j, seq in enumerate(scripted):
         for st in ("SX", "MX"):
             for compact in (0, 2):
-                W_ = World(M, st, rng)
+                # both kinds of first origin (with and without variables of its own) in every run
+                W_ = World(M, st, rng, ideal_first_origin=((j + compact // 2) % 2 == 0), clash_names=(st == "SX") == (j % 2 == 0))
                 W_.compact = compact
                 for op, arg in seq:
                     if not apply(W_, rec, op, arg):
